@@ -58,6 +58,14 @@ def retrieves(v, r, names, path="$"):
             if hit in used:
                 return "%s: input members %r and %r both land on result member %r (one of them is lost)" % (path, used[hit], k, hit)
             used[hit] = k
+            if isinstance(r, Object) and hit not in cls_props:
+                # "all other members by item access under their JSON names"
+                try:
+                    got = r[hit]
+                except BaseException as exc:  # noqa
+                    return "%s: member %r is not readable by item access (%s)" % (path, hit, type(exc).__name__)
+                if retrieves(x, got, names, "%s[%r]" % (path, hit)) is not None:
+                    return "%s: item access under the JSON name %r returns %r, not the supplied member" % (path, hit, got)
             if cls_props is not None and hit in cls_props:
                 try:
                     attr = getattr(r, hit)
@@ -187,6 +195,16 @@ TEMPLATES.append(
       "order": ["Vehicle", "Car"], "root": {"k": "Array", "items": [{"k": "Ref", "name": "Vehicle"}, {"k": "Ref", "name": "Car"}], "kw": {}}},
      [[{"class": "a", "wheels": 2}, {"class": "b", "type": "t", "doors": 4, "wheels": 4, "owner": {"class": "o", "wheels": 3}}],
       [{"class": "a"}, {"class": "c"}], [{}, {"type": "t"}], [{"wheels": 1}, {"doors": 2, "extra": [1]}]]))
+
+
+TEMPLATES.append(
+    # additional members named like attributes every model class / instance already has
+    ({"classes": {"Annotated": {"k": "Obj", "name": "Annotated", "base": None, "doc": "A titled thing.", "kw": {"minProperties": 1},
+                                "props": {"title": {"e": {"k": "String", "kw": {}}, "required": False, "source": None}}}},
+      "order": ["Annotated"], "root": {"k": "Array", "items": {"k": "Ref", "name": "Annotated"}, "kw": {}}},
+     [[{"title": "width", "description": "how wide it is", "default": 0, "required": ["a"], "const": 1, "enum": [1], "additionalProperties": False}],
+      [{"title": "t", "properties": {"x": 1}, "patternProperties": None, "minProperties": 5, "inline": True, "annotation": "x", "python": 3}],
+      [{"__doc__": "d", "__class__": "c", "__module__": "m", "__name__": "n", "validators": [], "type_validator": 0}]]))
 
 
 def run(tier, seed, replay=None):
